@@ -6,7 +6,7 @@ CONSTANTS
   Stations <- SmStations
   ArpSrcs <- SmArpSrcs
   Targets <- SmTargets
-  ArpTimeout = 6
+  ArpTimeout = 5
   BufTime = 5
   ArpGap = 4
   Period = 5
